@@ -91,6 +91,22 @@ Theorem C04_roundtrip_hash : forall c c', cert_of_msg (msg_of_cert c) = Some c' 
   hash c' = hash c /\ signed c' = signed c /\ cert_hash c' = cert_hash c.
 Proof. exact roundtrip_hash. Qed.
 
+(* the key / signature strings of the message may come in either accepted text form *)
+Theorem C04_roundtrip_any_encoding : forall c ea es, cert_of_msg (reencode (msg_of_cert c) ea es) = Some c.
+Proof. exact roundtrip_enc. Qed.
+
+(* ---- composite values and collections ---- *)
+(* every component of the aggregate verification key (Merkle root, number of leaves, total stake) *)
+Theorem C04_field_avk_components : forall c r n t r' n' t' h, avk c = avk_of r n t -> wf_cert c ->
+  cert_hash c = Ok h -> cert_hash (apply_mut c (MAvk (avk_of r' n' t'))) = Ok h ->
+  r' = r /\ n' = n /\ t' = t.
+Proof. exact field_avk_components. Qed.
+(* the signer list is hashed as carried: an extra entry (also one repeating an earlier entry) shows *)
+Theorem C04_field_signers_append : forall c p h, wf_cert c ->
+  wf_cert (apply_mut c (MSigners (signers (meta c) ++ [p]))) ->
+  cert_hash c = Ok h -> cert_hash (apply_mut c (MSigners (signers (meta c) ++ [p]))) = Ok h -> False.
+Proof. exact field_signers_append. Qed.
+
 (* ---- non-vacuity ---- *)
 Example C04_ex_wf : wf_cert (wit_cert (CBTx 7 9 3)) /\
   exists h, cert_hash (wit_cert (CBTx 7 9 3)) = Ok h.
